@@ -35,7 +35,7 @@ MUTANTS = [
     M("c07-bmm-axis-guard", "C07", "break", [(OPS, "    if not isinstance(other, QTensor) or input.axis is not None:", "    if not isinstance(other, QTensor):")], "C07.R1"),
     M("c07-cuda-threshold", "C07", "break", [(MM, "        and tokens > 16\n", "")], "C07.R5"),
     M("c07-cuda-mult", "C07", "break", [(MM, "        and in_features % 8 == 0\n", "")], "C07.R5"),
-    M("c07-cpu-int-any-dtype", "C07", "break", [(MM, "        and activations.dtype == torch.int8\n        and weights.dtype == torch.int8\n    ):\n        return qbytes_int_mm(activations, weights, output_scales)\n    in_features", "        and weights.dtype == torch.int8\n    ):\n        return qbytes_int_mm(activations, weights, output_scales)\n    in_features")], "C07.R5"),
+    M("c07-cpu-int-any-dtype", "C07", "break", [(MM, "        and activations.dtype == torch.int8\n        and weights.dtype == torch.int8\n        # torch._int_mm returns wrong sums on CPU", "        and weights.dtype == torch.int8\n        # torch._int_mm returns wrong sums on CPU")], "C07.R5"),
     M("c07-cpu-pack-quantized-act", "C07", "break", [(MM, "        if type(activations) != torch.Tensor:\n            activations = activations.dequantize()\n        return qbytes_int8pack_mm(activations, weights, output_scales)\n    return qbytes_mm(activations, weights, output_scales)\n\n\n@torch.library.impl(\"quanto_py::qbytes_mm\", \"MPS\")", "        return qbytes_int8pack_mm(activations, weights, output_scales)\n    return qbytes_mm(activations, weights, output_scales)\n\n\n@torch.library.impl(\"quanto_py::qbytes_mm\", \"MPS\")")], "C07.R5"),
     M("c07-default-no-promotion", "C07", "break", [(MM, "    if activations.dtype == torch.int8 or weights.dtype == torch.int8:\n        # If one of the terms is an int the matmul might overflow\n        mm_dtype = torch.float32\n", "")], "C07.R3"),
     M("c07-default-result-dtype", "C07", "break", [(MM, "    return outputs.to(output_scales.dtype)", "    return outputs")], "C07.R4"),
